@@ -275,18 +275,18 @@ fn rand_regions<V: Gen>(rng: &mut Rng) -> (MemRegion<V>, MemRegion<V>) {
 pub fn gen(out: &mut Out, _sub: &str) {
     let mut rng = Rng::new(out.seed ^ 0xC03);
     // ---- scalar domains -----------------------------------------------------------------------
-    for _ in 0..out.size(2500, 60000) {
+    for _ in 0..out.size(2500, 25000) {
         let (x, y) = rand_iv_pair(&mut rng, 1);
         push(out, scalar_event(&x, &y));
     }
     for w in [2u64, 4, 8] {
-        for _ in 0..out.size(100, 6000) {
+        for _ in 0..out.size(100, 800) {
             let (x, y) = rand_iv_pair(&mut rng, w);
             push(out, scalar_event(&x, &y));
         }
     }
     for w in [1u64, 4, 8] {
-        for _ in 0..out.size(30, 300) {
+        for _ in 0..out.size(30, 200) {
             let (x, y) = BitvectorDomain::pair(&mut rng, w);
             push(out, scalar_event(&x, &y));
         }
@@ -295,21 +295,21 @@ pub fn gen(out: &mut Out, _sub: &str) {
             push(out, scalar_event(&mk(t.0), &mk(t.1)));
         }
     }
-    for _ in 0..out.size(700, 16000) {
+    for _ in 0..out.size(700, 6000) {
         let (x, y) = rand_data_pair(&mut rng, 1);
         push(out, scalar_event(&x, &y));
     }
-    for _ in 0..out.size(60, 4000) {
+    for _ in 0..out.size(60, 500) {
         let (x, y) = rand_data_pair(&mut rng, 8);
         push(out, scalar_event(&x, &y));
     }
     // ---- maps under the three strategies ------------------------------------------------------
     for strategy in ["union", "intersect", "mergetop"] {
-        for _ in 0..out.size(250, 5000) {
+        for _ in 0..out.size(250, 2000) {
             let (x, y) = rand_maps::<IntervalDomain>(&mut rng, 1);
             push(out, map_event(strategy, &x, &y));
         }
-        for _ in 0..out.size(60, 1200) {
+        for _ in 0..out.size(60, 400) {
             let (x, y) = rand_maps::<BitvectorDomain>(&mut rng, 8);
             push(out, map_event(strategy, &x, &y));
             let (x, y) = rand_maps::<Taint>(&mut rng, 8);
@@ -318,7 +318,7 @@ pub fn gen(out: &mut Out, _sub: &str) {
         // data domain values: Top is not the greatest element, the case MergeTop exists for (and
         // the one IntersectMergeStrategy documents as outside its contract)
         if strategy != "intersect" {
-            for _ in 0..out.size(80, 3000) {
+            for _ in 0..out.size(80, 600) {
                 let w = *rng.pick(&[1u64, 1, 8]);
                 let (x, y) = rand_maps::<Data>(&mut rng, w);
                 push(out, map_event(strategy, &x, &y));
@@ -326,13 +326,13 @@ pub fn gen(out: &mut Out, _sub: &str) {
         }
     }
     // ---- memory regions ----------------------------------------------------------------------
-    for _ in 0..out.size(70, 4000) {
+    for _ in 0..out.size(70, 500) {
         let (x, y) = rand_regions::<IntervalDomain>(&mut rng);
         push(out, region_event(&x, &y));
         let (x, y) = rand_regions::<Data>(&mut rng);
         push(out, region_event(&x, &y));
     }
-    for _ in 0..out.size(40, 1200) {
+    for _ in 0..out.size(40, 300) {
         let (x, y) = rand_regions::<BitvectorDomain>(&mut rng);
         push(out, region_event(&x, &y));
     }
